@@ -56,10 +56,10 @@ def run(pid, tier, replay):
     chk.add_tlc(g)
     obs_path = chk.path("obs.ndjson")
     with po.Phase(chk, "replay"):
-        po.run_sharded(binary, "c36", cases_path, obs_path, procs=2 if quick else 8)
+        po.run_sharded(binary, "c36", cases_path, obs_path, procs=6 if quick else 8)
     cases = po.load_cases(cases_path)
     with po.Phase(chk, "validate"):
-        lines = validate(chk, pid, obs_path, cases, shards=6 if quick else 14)
+        lines = validate(chk, pid, obs_path, cases, shards=10 if quick else 14)
     chk.add("enumerated_cases", n)
     chk.cov["exhaustive"] = True
     chk.add("traces_validated_against_impl", len(lines))
@@ -71,7 +71,7 @@ def run(pid, tier, replay):
          "logs_with_forged_signal": lambda o: int(any(e["k"] == "recv" and e.get("gen") is False for e in o.get("log", [])))})
     chk.cov["distinct_nontrivial"] = dn
     chk.cov.update(cnt)
-    chk.cov["rule"] = ("cases = every behaviour of the NameBook bus model with <= MaxSteps (4 quick, 5 thorough) API calls / other-peer steps, "
+    chk.cov["rule"] = ("cases = every behaviour of the NameBook bus model with <= MaxSteps (5 in both tiers: lost - regained - lost again plus the calls that observe it needs five) API calls / other-peer steps, "
                        "every flag set in {none, allow, replace+dnq, allow+dnq}, <= 1 forged (thorough: or other-name) signal placed where a client "
                        "accepting it would change state, x schedule (client run after every message / only before API calls); distinct by recorded "
                        "log; non-trivial = the client received at least two bus messages")
